@@ -9,4 +9,8 @@
         // an index that was already provided (it is not below the lowest index seen) is a no-op: a verified secret is never
         // replaced by a replay
         min_seen(old(self).old_secrets@) <= idx ==> final(self).old_secrets@ == old(self).old_secrets@,   //[C03.secrets.provide-seen-index-is-noop]
+        // ... and an index below everything seen so far IS recorded (the store a later revocation is checked against must
+        // contain every secret that was accepted)
+        r.is_ok() && idx < min_seen(old(self).old_secrets@) ==> exists|pos: u8| place_spec(idx, pos)
+            && pos < final(self).old_secrets@.len() && final(self).old_secrets@[pos as int] == (secret, idx),      //[C03.secrets.provide-new-index-is-stored]
         r.is_err() ==> final(self).old_secrets@ == old(self).old_secrets@,                   //[C10.secrets.provide-err-frame]
